@@ -395,6 +395,66 @@ theorem spec_pass_iff (os : List Spec.Verdict.Outcome) :
   cases os.any Spec.Verdict.Outcome.isCex <;> cases os.any Spec.Verdict.Outcome.isError <;>
     cases os.any Spec.Verdict.Outcome.isSuccess <;> cases os.any Spec.Verdict.Outcome.isTimeout <;> simp
 
+/-! ## the setUp() filter -/
+
+theorem setupLoop_one (c : Bool) (ps : List Proc) (k : Nat) (h : setupLoop c ps k = some 1) :
+    k + ps.countP (notUnsat c) = 1 := by
+  induction ps generalizing k with
+  | nil => simp only [setupLoop, Option.some.injEq] at h; simp [h]
+  | cons p t ih =>
+    unfold setupLoop at h
+    rw [List.countP_cons]
+    cases hs : solveLowLevel c p with
+    | none => rw [hs] at h; cases h
+    | some r =>
+      rw [hs] at h
+      cases r with
+      | unsat core =>
+        have hn : notUnsat c p = false := by simp [notUnsat, hs]
+        have := ih k h
+        simp [hn]; omega
+      | sat v =>
+        have hn : notUnsat c p = true := by simp [notUnsat, hs]
+        simp only at h
+        split at h
+        · simp only [Option.some.injEq] at h; omega
+        · have := ih (k + 1) h; simp [hn]; omega
+      | unknown =>
+        have hn : notUnsat c p = true := by simp [notUnsat, hs]
+        simp only at h
+        split at h
+        · simp only [Option.some.injEq] at h; omega
+        · have := ih (k + 1) h; simp [hn]; omega
+      | err =>
+        have hn : notUnsat c p = true := by simp [notUnsat, hs]
+        simp only at h
+        split at h
+        · simp only [Option.some.injEq] at h; omega
+        · have := ih (k + 1) h; simp [hn]; omega
+
+/-- `setup_filter_only_unsat_discards`: when setUp() ends with two or more non-reverting paths and is accepted, exactly ONE
+of them was not answered `unsat` — a path whose feasibility query came back unknown, timed out, crashed, or printed garbage
+or nothing is kept (never silently dropped), so two such paths make setUp() fail and no test of the contract can PASS. -/
+theorem setup_filter_only_unsat_discards (c : Bool) (ps : List Proc) (h2 : 2 ≤ ps.length) (hok : setupOk c ps = true) :
+    ps.countP (notUnsat c) = 1 := by
+  match ps, h2 with
+  | a :: b :: t, _ =>
+    simp only [setupOk, beq_iff_eq] at hok
+    have := setupLoop_one c (a :: b :: t) 0 hok
+    omega
+
+/-- fail-safe reading: two setUp paths that the solver did not refute ⇒ setUp() is rejected -/
+theorem setup_rejects_two_unrefuted (c : Bool) (ps : List Proc) (h2 : 2 ≤ ps.length)
+    (h : 2 ≤ ps.countP (notUnsat c)) : setupOk c ps = false := by
+  cases hok : setupOk c ps with
+  | false => rfl
+  | true => have := setup_filter_only_unsat_discards c ps h2 hok; omega
+
+example : setupOk false [.exited Witness.satOut 0 [], .exited Witness.unknownOut 0 []] = false
+    ∧ setupOk false [.exited Witness.satOut 0 [], .timedOut] = false ∧ setupOk false [.exited [] 1 [], .exited Witness.satOut 0 []] = false
+    ∧ setupOk false [.exited Witness.satOut 0 [], .exited Witness.unsatOut 0 []] = true
+    ∧ setupOk false [.exited Witness.unsatOut 0 [], .exited Witness.unsatOut 0 []] = false := by decide
+
 /-! ## the process exit code -/
 
 /-- `exit_nonzero_iff`: for a non-empty selection, the exit code is non-zero iff some selected test did not pass (a test
